@@ -141,7 +141,7 @@ def run_impl(case, with_float=True, trace=True):
         obs["rem"] = js(res.remaining_power)
         # BatteryManager._distribute_power: distributed_power_value = request - remaining
         obs["distributed"] = js(X(p) - res.remaining_power)
-    except (ValueError, ZeroDivisionError, KeyError, AssertionError) as e:
+    except Exception as e:  # noqa: BLE001  (any exception is an observation; in-domain ones are violations)
         obs["err"] = type(e).__name__
         return obs
     if with_float:
@@ -166,7 +166,7 @@ def run_float(case):
         obs["labels"] = labels
         obs["dist"] = sorted([int(k), js(F(v).limit_denominator(10 ** 9))] for k, v in res.distribution.items())
         obs["rem"] = js(F(res.remaining_power).limit_denominator(10 ** 9))
-    except (ValueError, ZeroDivisionError) as e:
+    except Exception as e:  # noqa: BLE001
         obs["err"] = type(e).__name__
     return obs
 
@@ -243,8 +243,12 @@ def clauses(case, obs):
     """The clauses of C01 and C02 judged on the implementation's output.
     Returns list of (clause id, group index or None, text)."""
     out = []
-    if obs["err"] is not None or not in_domain(case):
+    if not in_domain(case):
         return out
+    if obs["err"] is not None:
+        # every in-domain request must be distributed: an exception means no set-points and no remainder at all
+        text = f"distribute_power raised {obs['err']} on an in-domain request"
+        return [("C01_error", None, text), ("C02_error", None, text)]
     p = fr(case["power"])
     sg = 1 if p > 0 else -1
     dist = {k: fr(v) for k, v in obs["dist"]}
@@ -286,11 +290,10 @@ def clauses(case, obs):
 
 # ----------------------------------------------------------------------------- known-finding triggers (narrow predicates)
 def split_leftover_groups(case, obs):
-    """Groups with >= 2 inverters whose greedy split (largest exclusion bound first, each inverter taking
-    min(inclusion, rest) when rest >= its exclusion bound) cannot realise every power in the group's own
-    range: replay the split on the group total + returned remainder is not possible from outside, so the
-    trigger is judged on the data: the group total is not realisable exactly although >= 2 inverters exist
-    and the observed total is strictly between two realisable values."""
+    """Trigger of known finding C02-split-leftover, judged on input + observed set-points only:
+    groups with >= 2 inverters in which the greedy split could not place more power -- every inverter
+    ends at its (battery-clipped) inclusion bound or at zero with a positive exclusion bound -- and whose
+    resulting total is non-zero but below the aggregated battery exclusion bound."""
     p = fr(case["power"])
     out = set()
     dist = {k: fr(v) for k, v in obs["dist"]} if obs.get("dist") else {}
@@ -298,13 +301,10 @@ def split_leftover_groups(case, obs):
         if len(g["invs"]) < 2:
             continue
         m, u, bex, bin_, invs = group_dir(g, p < 0)
-        order = sorted(invs, key=lambda t: (t[1], t[0]), reverse=True)
-        # inverters that received nothing although power was left for the group
-        got = [abs(dist.get(i, F(0))) for i, _, _ in order]
-        tot = sum(got)
-        # the split stopped early: some inverter is at zero or below its cap while the total is below
-        # the battery exclusion bound (the only way the split's leftover becomes visible from outside)
-        if 0 < tot < bex and any(x == 0 for x in got):
+        got = [(abs(dist.get(i, F(0))), ex, inc) for i, ex, inc in invs]
+        tot = sum(x for x, _, _ in got)
+        stuck = all(abs(x - inc) <= TOL or (x == 0 and ex > 0) for x, ex, inc in got)
+        if stuck and TOL < tot < bex:
             out.add(gi)
     return out
 
@@ -362,8 +362,24 @@ def gen_groups(rng, ngroups=None):
             prev = groups[-1]
             bats = [{**b, "id": ids[j]} for j, b in enumerate(prev["bats"][:k])]
             invs = [{**i, "id": ids[len(bats) + j]} for j, i in enumerate(prev["invs"][:m])]
-        groups.append({"bats": bats, "invs": invs})
+        g = {"bats": bats, "invs": invs}
+        if rng.random() < 0.9:
+            g = make_consistent(g)
+        groups.append(g)
     return groups
+
+
+def make_consistent(g):
+    """widen the inclusion bounds until the group's minimum power fits under its inclusion bound
+    (the domain condition of C01/C02) in both directions"""
+    g = {"bats": [dict(b) for b in g["bats"]], "invs": [dict(i) for i in g["invs"]]}
+    for supply, key, sign in ((False, "iu", 1), (True, "il", -1)):
+        m, u, *_ = group_dir(g, supply)
+        if m > u:
+            d = m - u
+            for c in g["bats"] + g["invs"]:
+                c[key] = js(fr(c[key]) + sign * d)
+    return g
 
 
 def requests_for(case_groups):
@@ -474,15 +490,19 @@ def c_groups(case):
 
 HEADER = """From Verif Require Import model.Dist.
 Open Scope Q_scope.
-(* case: groups, integer exponent, request, expected outcome:
-   None = ValueError, Some (set-points sorted by inverter id, remainder, distributed) *)
-Definition check (c : list group * nat * Q * option (list (Z * Q) * Q * Q)) : bool :=
-  let '(gs, e, p, exp) := c in
+(* case: groups, integer exponent, request, "the case lies in the property's domain",
+   expected outcome: None = ValueError, Some (set-points sorted by inverter id, remainder, distributed).
+   Besides equality of the outputs, the two run-time side conditions of the *_partial theorems
+   (no negative excess after an approximate cover, non-negative left-over before the greedy top-up)
+   are required to hold on every in-domain case. *)
+Definition check (c : list group * nat * Q * bool * option (list (Z * Q) * Q * Q)) : bool :=
+  let '(gs, e, p, dom, exp) := c in
   match run_request (fun x => Qpower x (Z.of_nat e)) gs p, exp with
   | None, None => true
   | Some r, Some (d, rem, dd) =>
       list_eqb (fun a b => Z.eqb (fst a) (fst b) && Qeq_bool (snd a) (snd b)) (sort_by_id (res_dist (rr_res r))) d
       && Qeq_bool (res_rem (rr_res r)) rem && Qeq_bool (res_distributed r) dd
+      && (negb dom || negb (has_label LNegExcess (rr_res r) || has_label LNegLeftover (rr_res r)))
   | _, _ => false
   end.
 """
@@ -492,9 +512,10 @@ def case_term(case, obs):
     if obs["err"] is not None:
         exp = "None"
     else:
-        d = "[" + "; ".join(f"({cZ(k)}, {cQ(v)})" for k, v in obs["dist"]) + "]"
+        d = "[" + "; ".join(f"(({cZ(k)})%Z, {cQ(v)})" for k, v in obs["dist"]) + "]"
         exp = f"(Some ({d}, {cQ(obs['rem'])}, {cQ(obs['distributed'])}))"
-    return f"({c_groups(case)}, {int(case['exp'])}%nat, {cQ(case['power'])}, {exp})"
+    dom = "true" if in_domain(case) else "false"
+    return f"({c_groups(case)}, {int(case['exp'])}%nat, {cQ(case['power'])}, {dom}, {exp})"
 
 
 def show_term(case):
